@@ -140,6 +140,14 @@ add("C20", "Model-based testing: Hypothesis-generated start/stop/record op lists
     "AIMLogger / StdoutLogger not exercised.",
     "DESIGN.md §5 C20")
 
+add("C10", "Hypothesis-generated boxes / keys / noise settings / network outputs vs the documented sampling formula re-evaluated from the same key; box-membership invariants over recorded training histories (every env action, every sampler and CEM call)",
+    "sample_actions / sample_target_actions equal the documented formula (jax.random.normal from the same key) and stay inside the box exactly, "
+    "smoothing noise within noise_clip * half-range; tanh policies stay within 4 ulp of the bounds for outputs up to float32 max; CEM "
+    "candidates and means within the bounds (and within the distance to the nearer bound) function-level and across optimize_cem loops; in "
+    "DDPG, TD3, TD3+LAP, TD7, MR.Q and PETS runs on a recording environment every action received and every sampler / planner call is checked.",
+    "float32; bounds |b| <= ~2e3, range >= 1e-3; 4-ulp allowance only for unclipped quantities; PETS needs n_samples >= 10.",
+    "DESIGN.md §5 C10")
+
 NOT_APPLICABLE = {}
 
 
